@@ -1,6 +1,7 @@
-(* C19: configuration acceptance.  For every key, the decoder of Model/Cli.v accepts a (non-null) JSON value exactly
-   when README documents it (Spec/CliSpec.v documented) — outside the executable triggers of the recorded findings.
-   Colours and font stacks are covered only in part (see Properties/C19.v). *)
+(* C19: configuration acceptance, all keys but the colours and the font stack (AcceptColor.v, AcceptFont.v).
+   For every key, the decoder of Model/Cli.v accepts a JSON value of the table (non-null; null too for the colours)
+   exactly when README documents it (Spec/CliSpec.v documented), and then decodes it to its documented meaning
+   (Spec/CliSpec.v meaning) — outside the executable triggers of the recorded findings. *)
 From Coq Require Import String.
 From TT Require Import Base.Prelude Base.CliTypes Gen.CliUnicode Model.Cli Spec.CliSpec Proofs.C19.Types.
 
@@ -62,129 +63,114 @@ Lemma py_upper_ci s lit : upper_plain lit -> text_eqb (py_upper s) lit = true ->
 Proof. intros P H. apply text_eqb_eq in H. unfold ci_eq. apply text_eqb_eq. apply py_upper_lit; assumption. Qed.
 
 (* ------------------------------------------------------------------ trigger bookkeeping *)
-Lemma trigger_false k v : trigger k v = false -> trigger_bool k v = false /\ trigger_lenient k v = false /\ trigger_rejected k v = false.
-Proof. unfold trigger. intro H. apply orb_false_iff in H as [H R]. apply orb_false_iff in H as [B L]. auto. Qed.
+Lemma trigger_false k v : trigger k v = false -> trigger_lenient k v = false /\ trigger_rejected k v = false.
+Proof. unfold trigger. intro H. apply orb_false_iff in H. exact H. Qed.
 
 Definition agrees (k : key) (v : json) : Prop := accepts k v = true <-> documented k v = true.
-
-(* ---- keys documented as true | false *)
-Lemma acc_bool k v : bool_key k = true -> trigger k v = false -> agrees k v.
+(* the decoder decides the table and gives the documented meaning *)
+Definition exact (k : key) (v : json) : Prop :=
+  agrees k v /\ (documented k v = true -> decode k v = Ok (meaning k v)).
+Lemma exact_of_decode k v : (documented k v = true -> decode k v = Ok (meaning k v)) -> (documented k v = false -> accepts k v = false) -> exact k v.
 Proof.
-  intros K Tr. apply trigger_false in Tr as (B & _ & _). unfold trigger_bool in B. rewrite K in B. cbn [andb] in B.
-  destruct v; try discriminate B. destruct k; try discriminate K; split; reflexivity.
+  intros D N. split; [|exact D]. unfold agrees. destruct (documented k v) eqn:E.
+  - unfold accepts. rewrite (D eq_refl). split; reflexivity.
+  - rewrite (N eq_refl). split; intro H; discriminate H.
+Qed.
+
+(* ---- keys documented as true | false: no trigger at all *)
+Lemma acc_bool k v : bool_key k = true -> in_table k v = true -> exact k v.
+Proof.
+  intros K I. apply exact_of_decode; destruct k; try discriminate K; destruct v; try discriminate I; cbn; intro H;
+    try reflexivity; try discriminate H.
 Qed.
 
 (* ---- general.log_level *)
-Lemma acc_log_level v : v <> JNull -> trigger KLogLevel v = false -> agrees KLogLevel v.
+Lemma acc_log_level v : v <> JNull -> trigger KLogLevel v = false -> exact KLogLevel v.
 Proof.
-  intros NN Tr. apply trigger_false in Tr as (_ & L & _). unfold agrees.
-  destruct v; try contradiction; try discriminate L; try (split; intro H; discriminate H).
-  cbn [trigger_lenient] in L. apply one_of_false in L.
-  change (documented KLogLevel (JStr s)) with (one_of s ["INFO"; "WARN"; "ERROR"]%string). rewrite one_of_In.
-  assert (A : accepts KLogLevel (JStr s) = true <-> In s (List.map fst log_levels)).
-  { rewrite <- assocT_In. unfold accepts, decode, check_level. cbn [is_null bind].
-    destruct (assocT s log_levels); cbn; split; eauto; try discriminate. intros (? & ?); discriminate. }
-  rewrite A. clear A. revert L.
-  set (L8 := List.map fst log_levels). vm_compute in L8. subst L8.
-  set (L5 := List.map T _). vm_compute in L5. subst L5.
-  set (L3 := List.map T _). vm_compute in L3. subst L3.
-  cbn [In]. tauto.
+  intros NN Tr. apply trigger_false in Tr as (L & _).
+  assert (A : agrees KLogLevel v).
+  { unfold agrees. destruct v; try contradiction; try discriminate L; try (split; intro H; discriminate H).
+    cbn [trigger_lenient] in L. apply one_of_false in L.
+    change (documented KLogLevel (JStr s)) with (one_of s ["INFO"; "WARN"; "ERROR"]%string). rewrite one_of_In.
+    assert (A : accepts KLogLevel (JStr s) = true <-> In s (List.map fst log_levels)).
+    { rewrite <- assocT_In. unfold accepts, decode, check_level. cbn [is_null bind].
+      destruct (assocT s log_levels); cbn; split; eauto; try discriminate. intros (? & ?); discriminate. }
+    rewrite A. clear A. revert L.
+    set (L8 := List.map fst log_levels). vm_compute in L8. subst L8.
+    set (L5 := List.map T _). vm_compute in L5. subst L5.
+    set (L3 := List.map T _). vm_compute in L3. subst L3.
+    cbn [In]. tauto. }
+  split; [exact A|]. intro D. destruct v; try discriminate D. cbn [documented] in D. apply one_of_In in D.
+  cbn [List.map In] in D. destruct D as [<-|[<-|[<-|[]]]]; vm_compute; reflexivity.
 Qed.
 
 (* ---- general.document_lang *)
-Lemma acc_document_lang v : v <> JNull -> trigger KDocumentLang v = false -> agrees KDocumentLang v.
+Lemma acc_document_lang v : v <> JNull -> trigger KDocumentLang v = false -> exact KDocumentLang v.
 Proof.
-  intros NN Tr. apply trigger_false in Tr as (_ & L & _). unfold agrees.
-  destruct v; try contradiction; try (split; intro H; discriminate H).
-  cbn [trigger_lenient] in L. apply negb_false_iff in L. cbn [documented]. rewrite L. split; reflexivity.
+  intros NN Tr. apply trigger_false in Tr as (L & _). split.
+  - unfold agrees. destruct v; try contradiction; try (split; intro H; discriminate H).
+    cbn [trigger_lenient] in L. apply negb_false_iff in L. cbn [documented]. rewrite L. split; reflexivity.
+  - intro D. destruct v; try discriminate D. reflexivity.
 Qed.
 
 (* ---- imsc_writer.time_format: exact, no trigger needed *)
-Lemma acc_time_format v : v <> JNull -> agrees KTimeFormat v.
+Lemma acc_time_format v : v <> JNull -> exact KTimeFormat v.
 Proof.
-  intros NN. unfold agrees. destruct v; try contradiction; try (split; intro H; discriminate H).
-  unfold accepts, decode, dec_time_format, documented, one_of. cbn [existsb].
-  destruct (text_eqb s (T "frames")); [split; reflexivity|].
-  destruct (text_eqb s (T "clock_time")); [split; reflexivity|].
-  destruct (text_eqb s (T "clock_time_with_frames")); split; intro H; try reflexivity; discriminate H.
+  intros NN. apply exact_of_decode; destruct v; try contradiction; cbn [documented]; intro H; try discriminate H; try reflexivity;
+    unfold accepts, decode, dec_time_format, meaning, mean_tfmt, one_of in *; cbn [existsb] in H;
+    destruct (text_eqb s (T "frames")); try reflexivity; destruct (text_eqb s (T "clock_time")); try reflexivity;
+    destruct (text_eqb s (T "clock_time_with_frames")); try reflexivity; discriminate H.
 Qed.
 
 (* ---- scc_reader.text_align *)
-Lemma acc_scc_text_align v : v <> JNull -> trigger KSccTextAlign v = false -> agrees KSccTextAlign v.
+Lemma acc_scc_text_align v : v <> JNull -> trigger KSccTextAlign v = false -> exact KSccTextAlign v.
 Proof.
-  intros NN Tr. apply trigger_false in Tr as (_ & L & _). unfold agrees.
-  destruct v; try contradiction; try (split; intro H; discriminate H).
-  cbn [trigger_lenient] in L. apply negb_false_iff in L.
-  unfold accepts, decode, dec_scc_text_align, documented, one_of. rewrite (py_lower_id _ L). cbn [existsb].
-  destruct (text_eqb s (T "auto")) eqn:A; destruct (text_eqb s (T "left")) eqn:B; destruct (text_eqb s (T "center")) eqn:C;
-    destruct (text_eqb s (T "right")) eqn:D; split; intro H; try reflexivity; try discriminate H.
+  intros NN Tr. apply trigger_false in Tr as (L & _). split.
+  - unfold agrees. destruct v; try contradiction; try (split; intro H; discriminate H).
+    cbn [trigger_lenient] in L. apply negb_false_iff in L.
+    unfold accepts, decode, dec_scc_text_align, documented, one_of. rewrite (py_lower_id _ L). cbn [existsb].
+    destruct (text_eqb s (T "auto")) eqn:A; destruct (text_eqb s (T "left")) eqn:B; destruct (text_eqb s (T "center")) eqn:C;
+      destruct (text_eqb s (T "right")) eqn:D; split; intro H; try reflexivity; try discriminate H.
+  - intro D. destruct v; try discriminate D. cbn [documented] in D. apply one_of_In in D.
+    cbn [List.map In] in D. destruct D as [<-|[<-|[<-|[<-|[]]]]]; vm_compute; reflexivity.
 Qed.
 
 (* ---- stl_reader.max_row_count *)
 Lemma mnr_plain : upper_plain (T "MNR").
 Proof. vm_compute. repeat constructor; try lia; discriminate. Qed.
-Lemma acc_max_row_count v : v <> JNull -> trigger KMaxRowCount v = false -> agrees KMaxRowCount v.
+Lemma acc_max_row_count v : v <> JNull -> trigger KMaxRowCount v = false -> exact KMaxRowCount v.
 Proof.
-  intros NN Tr. apply trigger_false in Tr as (_ & L & _). unfold agrees.
-  destruct v; try contradiction; try discriminate L; try (split; intro H; discriminate H); [split; reflexivity|].
-  cbn [trigger_lenient] in L. unfold accepts, decode, dec_max_row_count, documented.
-  destruct (text_eqb s (T "MNR")) eqn:E.
-  - apply text_eqb_eq in E. subst. split; reflexivity.
-  - cbn [negb andb] in L. destruct (text_eqb (py_upper s) (T "MNR")) eqn:U.
-    + rewrite (py_upper_ci _ _ mnr_plain U) in L. discriminate.
-    + split; intro H; discriminate H.
+  intros NN Tr. apply trigger_false in Tr as (L & _). split.
+  - unfold agrees. destruct v; try contradiction; try discriminate L; try (split; intro H; discriminate H); [split; reflexivity|].
+    cbn [trigger_lenient] in L. unfold accepts, decode, dec_max_row_count, documented.
+    destruct (text_eqb s (T "MNR")) eqn:E.
+    + apply text_eqb_eq in E. subst. split; reflexivity.
+    + cbn [negb andb] in L. destruct (text_eqb (py_upper s) (T "MNR")) eqn:U.
+      * rewrite (py_upper_ci _ _ mnr_plain U) in L. discriminate.
+      * split; intro H; discriminate H.
+  - intro D. destruct v; try discriminate D; [reflexivity|]. cbn [documented] in D. apply text_eqb_eq in D. subst. reflexivity.
 Qed.
 
-(* ---- lcd.safe_area *)
-Lemma acc_safe_area v : v <> JNull -> trigger KSafeArea v = false -> agrees KSafeArea v.
+(* ---- lcd.safe_area: an integer between 0 and 30, nothing else; no trigger *)
+Lemma acc_safe_area v : v <> JNull -> exact KSafeArea v.
 Proof.
-  intros NN Tr. apply trigger_false in Tr as (_ & L & _). unfold agrees.
-  destruct v; try contradiction; try discriminate L.
-  - unfold accepts, decode, dec_safe_area, py_int, documented. cbn [bind].
-    clear NN L. destruct ((z <? 0) || (30 <? z)) eqn:E; cbn; split; intro H; try discriminate H; try reflexivity; lia.
-  - unfold accepts, decode, dec_safe_area, py_int. destruct (k =? 0); split; intro H; discriminate H.
-  - split; intro H; discriminate H.
-  - split; intro H; discriminate H.
+  intros NN. apply exact_of_decode; destruct v; try contradiction; cbn [documented]; intro H; try discriminate H; try reflexivity;
+    unfold accepts, decode, dec_safe_area, meaning, mean_int in *; cbn [bind];
+    destruct ((z <? 0) || (30 <? z)) eqn:E; try reflexivity; lia.
 Qed.
 
 (* ------------------------------------------------------------------ int() on a string of ASCII digits *)
-Definition dstep (acc c : Z) : Z := acc * 10 + (c - 48).
-Definition dval (s : text) : Z := fold_left dstep s 0.
 Lemma is_d_digit c : is_d c = digit c.
 Proof. reflexivity. Qed.
-Lemma digit_cases c : digit c = true -> c = 48 \/ c = 49 \/ c = 50 \/ c = 51 \/ c = 52 \/ c = 53 \/ c = 54 \/ c = 55 \/ c = 56 \/ c = 57.
-Proof. unfold digit. lia. Qed.
-Lemma xform_digits s : forallb digit s = true -> List.map int_xform s = s.
+Lemma all_d_digits s : all_d s = all_digits s.
+Proof. reflexivity. Qed.
+Lemma number_dval s : number s = dval s.
 Proof.
-  induction s as [|c s IH]; [reflexivity|]. cbn [forallb List.map]. intro H. apply andb_true_iff in H as [D R].
-  rewrite (IH R). f_equal. unfold int_xform. unfold digit in D. assert (c <? 127 = true) as -> by lia. reflexivity.
+  unfold number, dval. generalize 0. induction s as [|c s IH]; intro a; [reflexivity|]. cbn [fold_left]. rewrite IH.
+  unfold dstep. f_equal. lia.
 Qed.
-Lemma scan_digits s acc nd : forallb digit s = true -> scan_num s acc nd false = Some (fold_left dstep s acc, nd + Z.of_nat (length s), []).
-Proof.
-  revert acc nd; induction s as [|c s IH]; intros acc nd H.
-  - cbn. repeat f_equal. lia.
-  - cbn [forallb] in H. apply andb_true_iff in H as [D R]. cbn [scan_num].
-    assert (c =? 95 = false) as -> by (unfold digit in D; lia). rewrite is_d_digit, D.
-    change (acc * 10 + (c - 48)) with (dstep acc c). rewrite (IH _ _ R). cbn [fold_left length].
-    replace (nd + 1 + Z.of_nat (length s)) with (nd + Z.of_nat (S (length s))) by lia. reflexivity.
-Qed.
-Lemma digit_not_space c : digit c = true -> is_int_space c = false.
-Proof. intro D. destruct (digit_cases _ D) as [->|[->|[->|[->|[->|[->|[->|[->|[->| ->]]]]]]]]]; reflexivity. Qed.
-Lemma digit_sign c s : digit c = true -> int_sign (c :: s) = (false, c :: s) /\ leading_underscore (c :: s) = false.
-Proof. intro D. destruct (digit_cases _ D) as [->|[->|[->|[->|[->|[->|[->|[->|[->| ->]]]]]]]]]; split; reflexivity. Qed.
-Lemma py_int_digits s :
-  forallb digit s = true -> s <> [] -> (Z.of_nat (length s) <=? 4300) = true -> py_int_of_text s = Ok (dval s).
-Proof.
-  intros D NE Len. unfold py_int_of_text. rewrite (xform_digits _ D).
-  destruct s as [|c s]; [contradiction|]. pose proof D as D'. cbn [forallb] in D. apply andb_true_iff in D as [Dc Ds].
-  cbn [skip]. rewrite (digit_not_space _ Dc). destruct (digit_sign c s Dc) as [-> ->].
-  rewrite (scan_digits _ 0 0 D'). fold (dval (c :: s)).
-  assert (P : 0 < Z.of_nat (length (c :: s))) by (cbn [length]; lia).
-  set (n := Z.of_nat (length (c :: s))) in *. clearbody n. clear -Len P.
-  assert ((0 + n =? 0) = false) as -> by lia.
-  assert ((int_max_str_digits <? 0 + n) = false) as -> by (unfold int_max_str_digits; lia).
-  reflexivity.
-Qed.
+Lemma int_of_digits_ok s : (Z.of_nat (length s) <=? 4300) = true -> int_of_digits s = Ok (dval s).
+Proof. intro L. unfold int_of_digits. assert ((int_max_str_digits <? Z.of_nat (length s)) = false) as -> by (unfold int_max_str_digits; lia). reflexivity. Qed.
 Lemma fold_dstep_zero s acc : forallb digit s = true -> 0 <= acc ->
   0 <= fold_left dstep s acc /\ (fold_left dstep s acc = 0 <-> acc = 0 /\ forallb (fun c => c =? 48) s = true).
 Proof.
@@ -197,6 +183,8 @@ Proof.
     + intros [X Y]. split; [lia|]. split; [lia|exact Y].
     + intros [X [Y1 Y2]]. split; [lia|exact Y2].
 Qed.
+Lemma dval_nonneg s : forallb digit s = true -> 0 <= dval s.
+Proof. intro D. exact (proj1 (fold_dstep_zero s 0 D (Z.le_refl 0))). Qed.
 Lemma dval_nonzero s : forallb digit s = true -> (dval s =? 0) = negb (existsb (fun c => negb (c =? 48)) s).
 Proof.
   intro D. destruct (fold_dstep_zero s 0 D (Z.le_refl 0)) as [_ Q]. unfold dval.
@@ -207,49 +195,53 @@ Proof.
   - apply Z.eqb_neq. intro X. apply Q in X as [_ X]. discriminate.
 Qed.
 
-(* ---- imsc_writer.fps *)
+(* ---- imsc_writer.fps: "<num>/<denom>", both positive; only CPython's digit limit stands in the way *)
 Lemma split_fields c s : split_on c s = fields c s.
 Proof. induction s as [|x s IH]; [reflexivity|]. cbn [split_on fields]. rewrite IH. reflexivity. Qed.
 Lemma fields_nonempty c s : fields c s <> [].
 Proof. destruct s as [|x s]; cbn [fields]; [discriminate|]. destruct (x =? c); [discriminate|]. destruct (fields c s); discriminate. Qed.
-(* every field is made of characters of s other than the separator, and is no longer than s *)
-Lemma fields_parts c s (P : Z -> bool) :
-  forallb (fun x => P x || (x =? c)) s = true ->
-  Forall (fun part => forallb P part = true /\ (length part <= length s)%nat) (fields c s).
+(* every field is no longer than s *)
+Lemma fields_len c s : Forall (fun part => (length part <= length s)%nat) (fields c s).
 Proof.
-  induction s as [|x s IH]; intro H.
-  - cbn. repeat constructor.
-  - cbn [forallb] in H. apply andb_true_iff in H as [Hx Hs]. specialize (IH Hs). cbn [fields length].
-    destruct (x =? c) eqn:E.
-    + constructor; [split; [reflexivity|cbn; lia]|]. eapply Forall_impl; [|exact IH]. cbn. intros a [A B]. split; [exact A|lia].
-    + destruct (fields c s) as [|h t] eqn:F; [exfalso; exact (fields_nonempty _ _ F)|].
-      inversion IH; subst. destruct H1 as [A B]. constructor.
-      * cbn [forallb length]. rewrite orb_false_r in Hx. rewrite Hx, A. split; [reflexivity|lia].
-      * eapply Forall_impl; [|exact H2]. cbn. intros a [A' B']. split; [exact A'|lia].
+  induction s as [|x s IH]; [cbn; repeat constructor|]. cbn [fields length].
+  destruct (x =? c).
+  - constructor; [cbn; lia|]. eapply Forall_impl; [|exact IH]. cbn. intros; lia.
+  - destruct (fields c s) as [|h t] eqn:F; [exfalso; exact (fields_nonempty _ _ F)|].
+    inversion IH; subst. constructor; [cbn [length]; lia|]. eapply Forall_impl; [|eassumption]. cbn. intros; lia.
 Qed.
-Lemma fraction_ok n d : is_ok (fraction n d) = negb (d =? 0).
-Proof. unfold fraction. destruct (d =? 0); reflexivity. Qed.
-Lemma acc_fps v : v <> JNull -> trigger KFps v = false -> agrees KFps v.
+Lemma all_digits_forall a : all_digits a = true -> forallb digit a = true.
+Proof. destruct a; [discriminate|]. intro H; exact H. Qed.
+(* the decoder on "a/b" with a, b digit strings below the limit *)
+Lemma dec_fps_digits a b :
+  all_digits a = true -> all_digits b = true -> (Z.of_nat (length a) <=? 4300) = true -> (Z.of_nat (length b) <=? 4300) = true ->
+  (do n <- int_of_digits a;
+   if n =? 0 then Raise EValue else do d <- int_of_digits b; if d =? 0 then Raise EValue else do f <- fraction n d; Ok (Some f)) =
+  if positive_number a && positive_number b
+  then Ok (Some (number a / Z.gcd (number a) (number b), number b / Z.gcd (number a) (number b))) else Raise EValue.
 Proof.
-  intros NN Tr. apply trigger_false in Tr as (_ & L & R). unfold agrees.
-  destruct v; try contradiction; try (split; intro H; discriminate H).
-  cbn [trigger_lenient trigger_rejected] in L, R. apply orb_false_iff in L as [L1 L2]. apply negb_false_iff in L1.
-  unfold accepts, decode, dec_fps, documented, fps_ok. rewrite split_fields.
-  pose proof (fields_parts 47 s digit L1) as Parts.
-  destruct (fields 47 s) as [|a [|b [|c r]]]; try (split; intro H; discriminate H).
-  inversion Parts as [|? ? [Da La] Parts']; subst. inversion Parts' as [|? ? [Db Lb] _]; subst.
-  assert (LenA : (Z.of_nat (length a) <=? 4300) = true) by lia.
-  assert (LenB : (Z.of_nat (length b) <=? 4300) = true) by lia.
-  unfold positive_number, all_digits in *.
-  destruct a as [|a0 a]; [split; intro H; discriminate H|]. destruct b as [|b0 b].
-  { rewrite (py_int_digits _ Da) by (congruence || assumption). cbn [bind]. split; intro H; [discriminate H|].
-    rewrite andb_false_r in H. discriminate H. }
-  rewrite (py_int_digits _ Da) by (congruence || assumption). rewrite (py_int_digits _ Db) by (congruence || assumption).
-  cbn [bind]. rewrite Da, Db in *. cbn [andb] in *.
-  assert (X : is_ok (do x <- (do f <- fraction (dval (a0 :: a)) (dval (b0 :: b)); Ok (Some f));
-                     Ok (copt (fun f : Z * Z => CFrac (fst f) (snd f)) x)) = negb (dval (b0 :: b) =? 0)).
-  { unfold fraction. destruct (dval (b0 :: b) =? 0); reflexivity. }
-  rewrite X, (dval_nonzero _ Db), negb_involutive. apply negb_false_iff in L2. rewrite L2. cbn [andb]. tauto.
+  intros Da Db La Lb. rewrite (int_of_digits_ok _ La), (int_of_digits_ok _ Lb). cbn [bind].
+  pose proof (all_digits_forall _ Da) as Fa. pose proof (all_digits_forall _ Db) as Fb.
+  unfold positive_number. rewrite Da, Db. cbn [andb].
+  rewrite (dval_nonzero _ Fa). destruct (existsb (fun c => negb (c =? 48)) a); cbn [negb andb]; [|reflexivity].
+  pose proof (dval_nonzero _ Fb) as Zb. rewrite Zb. destruct (existsb (fun c => negb (c =? 48)) b); cbn [negb andb]; [|reflexivity].
+  pose proof (dval_nonneg _ Fb) as Pb. cbn [negb] in Zb.
+  unfold fraction. rewrite Zb. assert ((dval b <? 0) = false) as -> by lia. cbn [bind]. rewrite !number_dval. reflexivity.
+Qed.
+Lemma acc_fps v : v <> JNull -> trigger KFps v = false -> exact KFps v.
+Proof.
+  intros NN Tr. apply trigger_false in Tr as (_ & R).
+  destruct v; try contradiction; try (apply exact_of_decode; intro H; try discriminate H; reflexivity).
+  cbn [trigger_rejected] in R.
+  assert (X : dec_fps (JStr s) = if fps_ok s then Ok (mean_fps (JStr s)) else Raise EValue).
+  { unfold dec_fps, fps_ok, mean_fps. rewrite split_fields. pose proof (fields_len 47 s) as Len.
+    destruct (fields 47 s) as [|a [|b [|c r]]]; try reflexivity.
+    inversion Len as [|? ? La Len']; subst. inversion Len' as [|? ? Lb _]; subst.
+    change (all_d a) with (all_digits a). change (all_d b) with (all_digits b).
+    destruct (all_digits a) eqn:Da; [|unfold positive_number; rewrite Da; reflexivity].
+    destruct (all_digits b) eqn:Db; [|unfold positive_number; rewrite Db; cbn [andb]; rewrite andb_false_r; reflexivity].
+    cbn [andb]. rewrite (dec_fps_digits a b Da Db) by lia. destruct (positive_number a && positive_number b); reflexivity. }
+  apply exact_of_decode; cbn [documented]; intro H; unfold accepts, decode; rewrite X, H; [|reflexivity].
+  cbn [bind meaning]. unfold fps_ok in H. unfold mean_fps. destruct (fields 47 s) as [|a [|b [|c r]]]; try discriminate H. reflexivity.
 Qed.
 
 (* ---- stl_reader.program_start_tc *)
@@ -297,269 +289,59 @@ Proof.
 Qed.
 Lemma ndf_df s : ndf_match s = true -> df_match s = true.
 Proof.
-  destruct s as [|a [|b [|x [|c [|d [|y [|e [|f [|z [|g [|h r]]]]]]]]]]]; try discriminate.
+  destruct s as [|a [|b [|x [|c [|d [|y [|e [|f [|z [|g [|h [|]]]]]]]]]]]]; try discriminate.
   unfold ndf_match. intro M. rewrite !andb_true_iff in M. destruct M as ((((((((((A & B) & X) & C) & D) & Y) & E) & F) & Z) & G) & H).
   unfold df_match, df_sep. rewrite A, B, C, D, E, F, G, H, X, Y, Z. reflexivity.
 Qed.
 Lemma tcp_plain : upper_plain (T "TCP").
 Proof. vm_compute. repeat constructor; try lia; discriminate. Qed.
-Lemma acc_start_tc v : v <> JNull -> trigger KStartTc v = false -> agrees KStartTc v.
+Lemma acc_start_tc v : v <> JNull -> trigger KStartTc v = false -> exact KStartTc v.
 Proof.
-  intros NN Tr. apply trigger_false in Tr as (_ & L & _). unfold agrees.
-  destruct v; try contradiction; try (split; intro H; discriminate H).
-  cbn [trigger_lenient] in L. unfold accepts, decode, dec_start_tc, documented.
+  intros NN Tr. apply trigger_false in Tr as (L & _).
+  destruct v; try contradiction; try (apply exact_of_decode; intro H; try discriminate H; reflexivity).
+  cbn [trigger_lenient] in L.
   destruct (text_eqb s (T "TCP")) eqn:E.
-  - apply text_eqb_eq in E. subst. split; reflexivity.
-  - cbn [negb andb orb] in L |- *. apply orb_false_iff in L as [Ci Sh].
-    destruct (text_eqb (py_upper s) (T "TCP")) eqn:U; [rewrite (py_upper_ci _ _ tcp_plain U) in Ci; discriminate|].
-    assert (A : forall b : bool, is_ok (do x <- (if b then Ok (Some s) else Raise EValue); Ok (copt CText x)) = b) by (intros []; reflexivity).
-    rewrite A. clear A. split.
-    + intro M. assert (D : df_match s = true).
-      { destruct (df_match s) eqn:D'; [reflexivity|]. cbn [orb] in M. rewrite (ndf_df _ M) in D'. discriminate D'. }
-      clear M. destruct s as [|a [|b [|x [|c [|d [|y [|e [|f [|z [|g [|h r]]]]]]]]]]]; try discriminate D.
-      destruct r as [|r0 r]; [|cbn [length] in Sh; lia].
-      apply negb_false_iff in Sh. rewrite !andb_true_iff in Sh. destruct Sh as ((X & Y) & Z).
-      apply Z.eqb_eq in X, Y, Z. subst x y z.
-      unfold df_match in D. rewrite !andb_true_iff in D. destruct D as ((((((((((A & B) & _) & C) & D) & _) & E') & F) & _) & G) & H).
-      apply tc_ok_of_shape. cbn [forallb]. change digit with is_d. rewrite A, B, C, D, E', F, G, H. reflexivity.
-    + intro M. destruct (tc_ok_shape _ M) as (h1 & h2 & m1 & m2 & s1 & s2 & f1 & f2 & -> & Dg).
-      cbn [forallb] in Dg. rewrite !andb_true_iff in Dg. destruct Dg as (A & B & C & D & E' & F & G & H & _).
-      unfold df_match. change is_d with digit. rewrite A, B, C, D, E', F, G, H. reflexivity.
+  { apply text_eqb_eq in E. subst. apply exact_of_decode; intro H; [reflexivity|discriminate H]. }
+  cbn [negb andb] in L. apply orb_false_iff in L as [Ci Sh].
+  assert (U : text_eqb (py_upper s) (T "TCP") = false).
+  { destruct (text_eqb (py_upper s) (T "TCP")) eqn:U; [rewrite (py_upper_ci _ _ tcp_plain U) in Ci; discriminate|reflexivity]. }
+  apply exact_of_decode; cbn [documented]; rewrite E; cbn [orb]; intro M; unfold accepts, decode, dec_start_tc; rewrite U.
+  - destruct (tc_ok_shape _ M) as (h1 & h2 & m1 & m2 & s1 & s2 & f1 & f2 & -> & Dg).
+    cbn [forallb] in Dg. rewrite !andb_true_iff in Dg. destruct Dg as (A & B & C & D & E' & F & G & H & _).
+    unfold df_match. change is_d with digit. rewrite A, B, C, D, E', F, G, H. reflexivity.
+  - destruct (df_match s || ndf_match s) eqn:X; [exfalso|reflexivity].
+    assert (D : df_match s = true).
+    { destruct (df_match s) eqn:D'; [reflexivity|]. cbn [orb] in X. rewrite (ndf_df _ X) in D'. discriminate D'. }
+    clear X. destruct s as [|a [|b [|x [|c [|d [|y [|e [|f [|z [|g [|h [|]]]]]]]]]]]]; try discriminate D.
+    apply negb_false_iff in Sh. rewrite !andb_true_iff in Sh. destruct Sh as ((X & Y) & Z).
+    apply Z.eqb_eq in X, Y, Z. subst x y z.
+    unfold df_match in D. rewrite !andb_true_iff in D. destruct D as ((((((((((A & B) & _) & C) & D) & _) & E') & F) & _) & G) & H).
+    rewrite tc_ok_of_shape in M; [discriminate M|]. cbn [forallb]. change digit with is_d. rewrite A, B, C, D, E', F, G, H. reflexivity.
 Qed.
 
 (* ------------------------------------------------------------------ all keys but colours and font stacks *)
 Definition table_key (k : key) : bool :=
   match k with KColor | KBgColor | KFontStack => false | _ => true end.
-Theorem config_accepts k v :
-  table_key k = true -> v <> JNull -> trigger k v = false -> (accepts k v = true <-> documented k v = true).
+Lemma in_table_nonnull k v : table_key k = true -> in_table k v = true -> v <> JNull.
+Proof. intros K I ->. destruct k; try discriminate K; discriminate I. Qed.
+Theorem config_exact_plain k v :
+  table_key k = true -> in_table k v = true -> trigger k v = false -> exact k v.
 Proof.
-  intros K NN Tr. destruct k; try discriminate K.
+  intros K I Tr. pose proof (in_table_nonnull k v K I) as NN. destruct k; try discriminate K.
   - exact (acc_log_level v NN Tr).
-  - apply acc_bool; [reflexivity|exact Tr].
+  - apply acc_bool; [reflexivity|exact I].
   - exact (acc_document_lang v NN Tr).
   - exact (acc_time_format v NN).
   - exact (acc_fps v NN Tr).
   - exact (acc_scc_text_align v NN Tr).
-  - apply acc_bool; [reflexivity|exact Tr].
+  - apply acc_bool; [reflexivity|exact I].
   - exact (acc_start_tc v NN Tr).
-  - apply acc_bool; [reflexivity|exact Tr].
+  - apply acc_bool; [reflexivity|exact I].
   - exact (acc_max_row_count v NN Tr).
-  - apply acc_bool; [reflexivity|exact Tr].
-  - apply acc_bool; [reflexivity|exact Tr].
-  - apply acc_bool; [reflexivity|exact Tr].
-  - apply acc_bool; [reflexivity|exact Tr].
-  - exact (acc_safe_area v NN Tr).
-  - apply acc_bool; [reflexivity|exact Tr].
+  - apply acc_bool; [reflexivity|exact I].
+  - apply acc_bool; [reflexivity|exact I].
+  - apply acc_bool; [reflexivity|exact I].
+  - apply acc_bool; [reflexivity|exact I].
+  - exact (acc_safe_area v NN).
+  - apply acc_bool; [reflexivity|exact I].
 Qed.
-
-(* ------------------------------------------------------------------ colours and font stacks: what is proved *)
-(* values that are not strings are rejected, as documented *)
-Lemma acc_not_string k v :
-  (k = KColor \/ k = KBgColor \/ k = KFontStack) -> v <> JNull -> (forall s, v <> JStr s) ->
-  accepts k v = false /\ documented k v = false.
-Proof.
-  intros K NN NS. destruct v; try contradiction; try (exfalso; eapply NS; reflexivity);
-    destruct K as [->|[->| ->]]; split; reflexivity.
-Qed.
-(* every TTML named colour and every #rrggbb / #rrggbbaa is accepted *)
-Lemma color_named_accepted k s : (k = KColor \/ k = KBgColor) -> one_of s ttml_named_colors = true -> accepts k (JStr s) = true.
-Proof.
-  intros K H. apply one_of_In in H. cbn [List.map In ttml_named_colors] in H.
-  repeat (destruct H as [<-|H]; [destruct K as [->| ->]; vm_compute; reflexivity|]). contradiction.
-Qed.
-Lemma hexval_some c : hexdigit c = true -> exists v, hexval c = Some v.
-Proof.
-  unfold hexdigit, hexval, digit. change is_d with digit. unfold digit. intro H.
-  destruct ((48 <=? c) && (c <=? 57)) eqn:A; [eauto|]. destruct ((65 <=? c) && (c <=? 70)) eqn:B; [eauto|].
-  destruct ((97 <=? c) && (c <=? 102)) eqn:C; [eauto|]. discriminate H.
-Qed.
-Lemma color_hex_accepted k h :
-  (k = KColor \/ k = KBgColor) -> forallb hexdigit h = true -> (length h = 6 \/ length h = 8)%nat ->
-  accepts k (JStr (35 :: h)) = true /\ documented k (JStr (35 :: h)) = true.
-Proof.
-  intros K H L. split.
-  - assert (X : exists c, match_hex (35 :: h) = Some c).
-    { destruct L as [L|L].
-      - destruct h as [|a [|b [|c [|d [|e [|f [|]]]]]]]; try discriminate L. cbn [forallb] in H.
-        repeat (apply andb_true_iff in H as [?H H]).
-        destruct (hexval_some a) as (? & Ea); [assumption|]. destruct (hexval_some b) as (? & Eb); [assumption|].
-        destruct (hexval_some c) as (? & Ec); [assumption|]. destruct (hexval_some d) as (? & Ed); [assumption|].
-        destruct (hexval_some e) as (? & Ee); [assumption|]. destruct (hexval_some f) as (? & Ef); [assumption|].
-        unfold match_hex, hex2. rewrite Ea, Eb, Ec, Ed, Ee, Ef. eauto.
-      - destruct h as [|a [|b [|c [|d [|e [|f [|g [|i [|]]]]]]]]]; try discriminate L. cbn [forallb] in H.
-        repeat (apply andb_true_iff in H as [?H H]).
-        destruct (hexval_some a) as (? & Ea); [assumption|]. destruct (hexval_some b) as (? & Eb); [assumption|].
-        destruct (hexval_some c) as (? & Ec); [assumption|]. destruct (hexval_some d) as (? & Ed); [assumption|].
-        destruct (hexval_some e) as (? & Ee); [assumption|]. destruct (hexval_some f) as (? & Ef); [assumption|].
-        destruct (hexval_some g) as (? & Eg); [assumption|]. destruct (hexval_some i) as (? & Ei); [assumption|].
-        unfold match_hex, hex2. rewrite Ea, Eb, Ec, Ed, Ee, Ef, Eg, Ei. eauto. }
-    destruct X as (c & X).
-    assert (P : exists c', parse_color (35 :: h) = Ok c').
-    { unfold parse_color. destruct (assocT (py_lower (35 :: h)) named_colors); [eauto|]. rewrite X. eauto. }
-    destruct P as (c' & P). destruct K as [->| ->]; unfold accepts, decode, dec_color; rewrite P; reflexivity.
-  - assert (D : color_ok (35 :: h) = true).
-    { unfold color_ok, color_form. apply orb_true_iff. left. apply orb_true_iff. left. apply orb_true_iff. right.
-      rewrite H. destruct L as [-> | ->]; reflexivity. }
-    destruct K as [->| ->]; exact D.
-Qed.
-(* a font stack made of one unquoted family name of two or more letters is documented and accepted *)
-Lemma letter_props c : letter c = true ->
-  (c =? 92) = false /\ mem c [39; 34; 44; 32] = false /\ mem c [39; 34; 44] = false /\ (c =? 32) = false /\
-  (c =? 39) || (c =? 34) = false /\ (c =? 44) = false.
-Proof. unfold letter, mem. cbn [existsb]. intro H. repeat split; lia. Qed.
-Lemma fonts_unq_letters r : forallb letter r = true -> fonts_scan FsUnq false r = true.
-Proof.
-  induction r as [|c r IH]; [reflexivity|]. cbn [forallb]. intro H. apply andb_true_iff in H as [L R].
-  destruct (letter_props _ L) as (A & _ & _ & _ & B & C). cbn [fonts_scan]. rewrite C, B, A. exact (IH R).
-Qed.
-Lemma font_single_name s :
-  forallb letter s = true -> (2 <= length s)%nat ->
-  accepts KFontStack (JStr s) = true /\ documented KFontStack (JStr s) = true.
-Proof.
-  intros H L. destruct s as [|a [|b r]]; try (cbn in L; lia). cbn [forallb] in H.
-  apply andb_true_iff in H as [La H]. apply andb_true_iff in H as [Lb Lr].
-  destruct (letter_props _ La) as (A1 & A2 & A3 & A4 & A5 & A6). destruct (letter_props _ Lb) as (B1 & B2 & B3 & B4 & B5 & B6).
-  split.
-  - assert (F : font_any (a :: b :: r) = true).
-    { cbn [font_any]. apply orb_true_iff. left. unfold font_match_at. apply orb_true_iff. right.
-      unfold noquote_match. apply orb_true_iff. right. unfold unit1_plain. rewrite A2. unfold has_unit2, unit_esc, unit2_plain.
-      rewrite B3. destruct r; [reflexivity|]. rewrite B1. reflexivity. }
-    unfold accepts, decode, dec_font_stack. rewrite F. reflexivity.
-  - cbn [documented]. unfold fonts_ok. cbn [fonts_scan]. rewrite A4, A5, A6, A1.
-    apply (fonts_unq_letters (b :: r)). cbn [forallb]. rewrite Lb, Lr. reflexivity.
-Qed.
-
-(* ------------------------------------------------------------------ every documented colour is accepted *)
-Lemma strip_pre_app p s r : strip_pre p s = Some r -> s = p ++ r.
-Proof.
-  revert s; induction p as [|a p IH]; intros s H; cbn [strip_pre] in H.
-  - inversion H; reflexivity.
-  - destruct s as [|b s]; [discriminate|]. destruct (a =? b) eqn:E; [|discriminate].
-    apply Z.eqb_eq in E. subst b. cbn [app]. f_equal. apply IH. exact H.
-Qed.
-Lemma strip_last_app c s m : strip_last c s = Some m -> s = m ++ [c].
-Proof.
-  unfold strip_last. destruct (rev s) as [|l t] eqn:R; [discriminate|]. destruct (l =? c) eqn:E; [|discriminate].
-  intro H. inversion H; subst. apply Z.eqb_eq in E. subst l.
-  rewrite <- (rev_involutive s), R. reflexivity.
-Qed.
-Lemma strip_prefix_app p r : strip_prefix p (p ++ r) = Some r.
-Proof. induction p as [|a p IH]; [destruct r; reflexivity|]. cbn [app strip_prefix]. rewrite Z.eqb_refl. exact IH. Qed.
-
-Lemma re_digit_ascii c : digit c = true -> is_re_digit c = true.
-Proof.
-  intro D. unfold is_re_digit, dec_digit, dec_zeros. cbn [digit_in]. change (48 + 9) with 57.
-  unfold digit in D. rewrite D. reflexivity.
-Qed.
-Lemma re_space_digit c : digit c = true -> is_re_space c = false.
-Proof. intro D. destruct (digit_cases _ D) as [->|[->|[->|[->|[->|[->|[->|[->|[->| ->]]]]]]]]]; reflexivity. Qed.
-Definition sep_char (c : Z) : Prop := c = 44 \/ c = 41.
-Lemma sep_props c : sep_char c -> is_re_digit c = false /\ is_re_space c = false.
-Proof. intros [-> | ->]; split; reflexivity. Qed.
-Lemma span_digits d c rest : forallb digit d = true -> is_re_digit c = false -> span is_re_digit (d ++ c :: rest) = (d, c :: rest).
-Proof.
-  intros D N. induction d as [|x d IH]; cbn [app span].
-  - rewrite N. reflexivity.
-  - cbn [forallb] in D. apply andb_true_iff in D as [Dx Dd]. rewrite (re_digit_ascii _ Dx), (IH Dd). reflexivity.
-Qed.
-Lemma digits1_ok d c rest : all_digits d = true -> sep_char c -> digits1 (d ++ c :: rest) = Some (d, c :: rest).
-Proof.
-  intros D S. destruct (sep_props _ S) as [N _]. unfold all_digits in D. destruct d as [|x d]; [discriminate|].
-  unfold digits1. rewrite (span_digits _ _ _ D N). reflexivity.
-Qed.
-Lemma skip_at_digits d rest : all_digits d = true -> skip is_re_space (d ++ rest) = d ++ rest.
-Proof.
-  unfold all_digits. destruct d as [|x d]; [discriminate|]. cbn [forallb app skip]. intro D. apply andb_true_iff in D as [Dx _].
-  rewrite (re_space_digit _ Dx). reflexivity.
-Qed.
-Lemma sp_digits_sp_ok d c rest : all_digits d = true -> sep_char c -> sp_digits_sp (d ++ c :: rest) = Some (d, c :: rest).
-Proof.
-  intros D S. unfold sp_digits_sp. rewrite (skip_at_digits _ _ D), (digits1_ok _ _ _ D S). cbn [obind fst snd skip].
-  destruct (sep_props _ S) as [_ N]. rewrite N. reflexivity.
-Qed.
-Lemma component_digits x : component_ok x = true -> all_digits x = true.
-Proof. unfold component_ok. intro H. apply andb_true_iff in H as [H _]. exact H. Qed.
-Lemma int_of_component x n : all_digits x = true -> Z.of_nat (length x) <= n -> (n <=? 4300) = true -> py_int_of_text x = Ok (dval x).
-Proof.
-  unfold all_digits. destruct x as [|c x]; [discriminate|]. intros D L N. apply py_int_digits; [exact D|discriminate|lia].
-Qed.
-
-Lemma accepts_color_parse k s : (k = KColor \/ k = KBgColor) -> is_ok (parse_color s) = true -> accepts k (JStr s) = true.
-Proof. intros [->| ->] H; unfold accepts, decode, dec_color; destruct (parse_color s); try discriminate H; reflexivity. Qed.
-
-Lemma rgb_accepted body : (Z.of_nat (length body) <=? 4290) = true ->
-  match fields 44 body with [r; g; b] => forallb component_ok [r; g; b] | _ => false end = true ->
-  is_ok (parse_color (T "rgb(" ++ body ++ [41])) = true.
-Proof.
-  intros Len H. pose proof (fields_join 44 body) as J.
-  destruct (fields 44 body) as [|r [|g [|b [|]]]]; try discriminate H.
-  cbn [forallb] in H. apply andb_true_iff in H as [Hr H]. apply andb_true_iff in H as [Hg H]. apply andb_true_iff in H as [Hb _].
-  apply component_digits in Hr, Hg, Hb. cbn [join] in J. subst body.
-  assert (Lr : Z.of_nat (length r) <= Z.of_nat (length (r ++ 44 :: g ++ 44 :: b))) by (repeat (rewrite app_length; cbn [length]); lia).
-  assert (Lg : Z.of_nat (length g) <= Z.of_nat (length (r ++ 44 :: g ++ 44 :: b))) by (repeat (rewrite app_length; cbn [length]); lia).
-  assert (Lb : Z.of_nat (length b) <= Z.of_nat (length (r ++ 44 :: g ++ 44 :: b))) by (repeat (rewrite app_length; cbn [length]); lia).
-  assert (N : (Z.of_nat (length (r ++ 44 :: g ++ 44 :: b)) <=? 4300) = true) by lia.
-  unfold parse_color. destruct (assocT _ named_colors); [reflexivity|].
-  change (T "rgb(") with [114; 103; 98; 40]. cbn [app match_hex].
-  assert (M : match_rgb (114 :: 103 :: 98 :: 40 :: (r ++ 44 :: g ++ 44 :: b) ++ [41]) = Some (r, g, b)).
-  { unfold match_rgb. change (T "rgb(") with [114; 103; 98; 40]. cbn [strip_prefix Z.eqb Pos.eqb obind].
-    rewrite <- !app_assoc. cbn [app].
-    rewrite (sp_digits_sp_ok r 44 _ Hr (or_introl eq_refl)). cbn [obind fst snd strip_prefix Z.eqb Pos.eqb].
-    rewrite <- !app_assoc. cbn [app].
-    rewrite (sp_digits_sp_ok g 44 _ Hg (or_introl eq_refl)). cbn [obind fst snd strip_prefix Z.eqb Pos.eqb].
-    rewrite (sp_digits_sp_ok b 41 _ Hb (or_intror eq_refl)). cbn [obind fst snd strip_prefix Z.eqb Pos.eqb]. reflexivity. }
-  rewrite M. rewrite (int_of_component r _ Hr Lr N), (int_of_component g _ Hg Lg N), (int_of_component b _ Hb Lb N). reflexivity.
-Qed.
-Lemma rgba_accepted body : (Z.of_nat (length body) <=? 4290) = true ->
-  match fields 44 body with [r; g; b; a] => forallb component_ok [r; g; b; a] | _ => false end = true ->
-  is_ok (parse_color (T "rgba(" ++ body ++ [41])) = true.
-Proof.
-  intros Len H. pose proof (fields_join 44 body) as J.
-  destruct (fields 44 body) as [|r [|g [|b [|a [|]]]]]; try discriminate H.
-  cbn [forallb] in H. apply andb_true_iff in H as [Hr H]. apply andb_true_iff in H as [Hg H]. apply andb_true_iff in H as [Hb H].
-  apply andb_true_iff in H as [Ha _].
-  apply component_digits in Hr, Hg, Hb, Ha. cbn [join] in J. subst body.
-  assert (Lr : Z.of_nat (length r) <= Z.of_nat (length (r ++ 44 :: g ++ 44 :: b ++ 44 :: a))) by (repeat (rewrite app_length; cbn [length]); lia).
-  assert (Lg : Z.of_nat (length g) <= Z.of_nat (length (r ++ 44 :: g ++ 44 :: b ++ 44 :: a))) by (repeat (rewrite app_length; cbn [length]); lia).
-  assert (Lb : Z.of_nat (length b) <= Z.of_nat (length (r ++ 44 :: g ++ 44 :: b ++ 44 :: a))) by (repeat (rewrite app_length; cbn [length]); lia).
-  assert (La : Z.of_nat (length a) <= Z.of_nat (length (r ++ 44 :: g ++ 44 :: b ++ 44 :: a))) by (repeat (rewrite app_length; cbn [length]); lia).
-  assert (N : (Z.of_nat (length (r ++ 44 :: g ++ 44 :: b ++ 44 :: a)) <=? 4300) = true) by lia.
-  unfold parse_color. destruct (assocT _ named_colors); [reflexivity|].
-  change (T "rgba(") with [114; 103; 98; 97; 40]. cbn [app match_hex].
-  assert (M0 : match_rgb (114 :: 103 :: 98 :: 97 :: 40 :: (r ++ 44 :: g ++ 44 :: b ++ 44 :: a) ++ [41]) = None).
-  { unfold match_rgb. change (T "rgb(") with [114; 103; 98; 40]. reflexivity. }
-  assert (M : match_rgba (114 :: 103 :: 98 :: 97 :: 40 :: (r ++ 44 :: g ++ 44 :: b ++ 44 :: a) ++ [41]) = Some (r, g, b, a)).
-  { unfold match_rgba. change (T "rgba(") with [114; 103; 98; 97; 40]. cbn [strip_prefix Z.eqb Pos.eqb obind].
-    rewrite <- !app_assoc. cbn [app].
-    rewrite (skip_at_digits _ _ Hr), (digits1_ok r 44 _ Hr (or_introl eq_refl)). cbn [obind fst snd strip_prefix Z.eqb Pos.eqb].
-    rewrite <- !app_assoc. cbn [app].
-    rewrite (sp_digits_sp_ok g 44 _ Hg (or_introl eq_refl)). cbn [obind fst snd strip_prefix Z.eqb Pos.eqb].
-    rewrite <- !app_assoc. cbn [app].
-    rewrite (sp_digits_sp_ok b 44 _ Hb (or_introl eq_refl)). cbn [obind fst snd strip_prefix Z.eqb Pos.eqb].
-    rewrite (sp_digits_sp_ok a 41 _ Ha (or_intror eq_refl)). cbn [obind fst snd strip_prefix Z.eqb Pos.eqb]. reflexivity. }
-  rewrite M0, M.
-  rewrite (int_of_component r _ Hr Lr N), (int_of_component g _ Hg Lg N), (int_of_component b _ Hb Lb N), (int_of_component a _ Ha La N).
-  reflexivity.
-Qed.
-
-Theorem color_complete k s :
-  (k = KColor \/ k = KBgColor) -> (Z.of_nat (length s) <=? 4290) = true -> color_ok s = true -> accepts k (JStr s) = true.
-Proof.
-  intros K Len H. unfold color_ok, color_form in H. apply orb_true_iff in H as [H|H]; [apply orb_true_iff in H as [H|H]; [apply orb_true_iff in H as [H|H]|]|].
-  - exact (color_named_accepted k s K H).
-  - destruct s as [|c h]; [discriminate|]. destruct (c =? 35) eqn:C.
-    + apply Z.eqb_eq in C. subst c. apply andb_true_iff in H as [Hx Hl].
-      apply (color_hex_accepted k h K Hx). apply orb_true_iff in Hl as [L|L]; apply Z.eqb_eq in L; lia.
-    + destruct c as [|c|c]; try discriminate H. repeat (destruct c as [c|c|]; try discriminate H). discriminate C.
-  - apply accepts_color_parse; [exact K|]. unfold strip_both in H.
-    destruct (strip_pre (T "rgb(") s) as [r|] eqn:P; [|discriminate]. destruct (strip_last 41 r) as [body|] eqn:Q; [|discriminate].
-    apply strip_pre_app in P. apply strip_last_app in Q. subst r s. apply rgb_accepted; [|exact H].
-    rewrite !app_length in Len. lia.
-  - apply accepts_color_parse; [exact K|]. unfold strip_both in H.
-    destruct (strip_pre (T "rgba(") s) as [r|] eqn:P; [|discriminate]. destruct (strip_last 41 r) as [body|] eqn:Q; [|discriminate].
-    apply strip_pre_app in P. apply strip_last_app in Q. subst r s. apply rgba_accepted; [|exact H].
-    rewrite !app_length in Len. lia.
-Qed.
-Theorem color_complete_documented k s :
-  (k = KColor \/ k = KBgColor) -> (Z.of_nat (length s) <=? 4290) = true -> documented k (JStr s) = true -> accepts k (JStr s) = true.
-Proof. intros K L D. apply (color_complete k s K L). destruct K as [->| ->]; exact D. Qed.
